@@ -61,4 +61,14 @@ Definition RootHeader (w : world) (ff : option N) (root : id) : Prop :=
     (forall st, parse_file_header strict tab_at (map (fun a => (fst a, to_pc (snd a))) (n_attrs rn)) st
                 = Val (Ret tt (Parser.set_version st ver))).
 
+(* the structural part of WorldOK that the canonical form needs: order, exact types, SHORT-NAME where named (no value clauses) *)
+Definition node_struct (w : world) (ff : option N) (n : node) : Prop :=
+  (exists items, items_of w (n_content n) = Some items /\ Ordered T (n_type n) ver items) /\
+  (forall c cn, In (CElem c) (n_content n) -> w_nodes w c = Some cn ->
+     exists idx, find_sub_element T (n_type n) (n_name cn) ver = Val (Some (n_type cn, idx))) /\
+  (is_named_in_version T (n_type n) ver = Val true ->
+     exists c cn, In (CElem c) (n_content n) /\ w_nodes w c = Some cn /\ passes ff cn = true /\ n_name cn = name_short_name T).
+
+Definition WorldStruct (w : world) (ff : option N) : Prop := forall i n, w_nodes w i = Some n -> node_struct w ff n.
+
 End CanonDefs.
